@@ -37,7 +37,16 @@ func c02SubCases() []coreCase {
 	mk := func(vars map[string]interface{}) coreCase {
 		return coreCase{Query: q, Vars: vars, Kind: c02SubKind, Features: []string{"var-default", "directed:subscription-start"}, Fed: &fedDump{Spec: spec, Data: data}}
 	}
+	// a document with several operations: only the SELECTED operation's declarations count
+	two := `subscription A($v: Int = 1, $w: String = "a") { s0(a0: $v, a1: $w) } subscription B($v: Int = 5, $w: String) { s0(a0: $v, a1: $w) }`
+	mk2 := func(name string, vars map[string]interface{}) coreCase {
+		return coreCase{Query: two, Vars: vars, OpName: &name, Kind: c02SubKind, Features: []string{"var-default", "directed:subscription-start", "multi-operation document"}, Fed: &fedDump{Spec: spec, Data: data}}
+	}
 	return []coreCase{
+		mk2("B", nil),
+		mk2("B", map[string]interface{}{"w": "z"}),
+		mk2("A", nil),
+		mk2("A", map[string]interface{}{"v": 9}),
 		mk(nil),
 		mk(map[string]interface{}{}),
 		mk(map[string]interface{}{"v": nil}),
@@ -97,6 +106,12 @@ func c02SubCheck(ctx *Ctx, idx int, cs coreCase) {
 		how := "the client's value"
 		if !provided {
 			if vd.DefaultValue == nil {
+				// neither sent nor defaulted by the selected operation: no value may be made up for it
+				if got, ok := sent[vd.Variable]; ok && got != nil {
+					ctx.Rep.Fail(hx.Failure{Kind: "property-fails", Detail: fmt.Sprintf("subscription start: $%s was neither sent by the client nor given a default by the selected operation, but the root subscription request carries %s for it", vd.Variable, hx.Canon(toGeneric(got))),
+						Case: cs, Impl: map[string]interface{}{"query": reqs[0].Request.Query, "variables": sent}, Index: idx})
+					return
+				}
 				continue
 			}
 			d, derr := vd.DefaultValue.Value(nil)
